@@ -1,0 +1,15 @@
+//go:build verif
+
+package modeling
+
+// VerifYield, when set, is called at the scheduling points of the deterministic
+// simulation harness in the *ParallelWithPoolSize functions (after every
+// goroutine creation and before waiting for the workers). It only ever parks
+// the calling goroutine. Compiled in with -tags verif only.
+var VerifYield func(site string)
+
+func verifYield(site string) {
+	if f := VerifYield; f != nil {
+		f(site)
+	}
+}
